@@ -10,6 +10,7 @@ from ..core import Run, AnalysisError, dotted, norm
 from ..alg import T, num, var, op, fun, app, normalize, same, same_terms, substitute
 from ..pyreader import PyReader, VVal, Sys, Raised, term_has
 from .c12 import H
+from .c11 import SubsReader, _Point, scalars_of, _methods_module, _generic_expr
 from ..reader import SYSTEMS
 
 EXPLANATION = (
@@ -159,6 +160,74 @@ def _has_nonnegative_factor(t) -> bool:
     return False
 
 
+class _StoredField:
+    """`self` of a ScalarField / VectorField that keeps a value instead of a callable"""
+
+    def __init__(self, system: Sys, value):
+        self.system, self.value = system, value
+
+
+class ApplyReader(SubsReader):
+
+    def hook_attr(self, base, attr, n):
+        if isinstance(base, _StoredField):
+            if attr in ("_point_function", "field_function"):
+                return self.value_of(base)
+            if attr in ("_coordinate_system", "coordinate_system"):
+                return base.system
+        return super().hook_attr(base, attr, n)
+
+    @staticmethod
+    def value_of(base):
+        return list(base.value) if isinstance(base.value, list) else base.value
+
+    def hook_call(self, n, env, fns):
+        f = dotted(n.func) or ""
+        if f == "callable" and len(n.args) == 1:
+            v = self.ev(n.args[0], env, fns)
+            if isinstance(v, (list, T, int)):
+                return False
+            self.fail(n, "callable() of an unknown object")
+        return super().hook_call(n, env, fns)
+
+
+def _stored_value_fields(run: Run) -> None:
+    """J8: the integrals above apply the field to the trajectory (`field.apply` -> `__call__`), the other side of each theorem differentiates
+    `apply_to_basis()` with respect to the base scalars. For a callable that is one function; a stored value has to be substituted."""
+    cs = Sys("P", "CARTESIAN")
+    sc = scalars_of(cs)
+    for modname, cls, vector in (("symplyphysics.core.fields.vector_field", "VectorField", True), ("symplyphysics.core.fields.scalar_field", "ScalarField", False)):
+        m = run.src.need(modname)
+        mm = _methods_module(m, cls)
+        for npt in (2, 3):
+            for selfref in (False, True):
+                coords = [sc[(i + 1) % 3] if selfref else var(f"g{i}") for i in range(npt)]
+                full = coords + [num(0)] * (3 - npt)
+                exprs = [_generic_expr(sc, f"e{j}") for j in range(3 if vector else 1)]
+                R = ApplyReader(mm, modname.rsplit(".", 1)[1] + ".py", {})
+                run.ob("J8", f"{cls}.__call__[stored value, {npt} coordinates{', trajectory in base scalars' if selfref else ''}]")
+                try:
+                    got = R.call("__call__", [_StoredField(cs, exprs if vector else exprs[0]), _Point(coords)])
+                except Raised as r:
+                    got = r
+                want = [substitute(e, {sc[k].val: full[k] for k in range(3)}) for e in exprs]
+                if vector:
+                    gl = list(got.components) if isinstance(got, VVal) and got.system == cs else None
+                else:
+                    gl = [got] if isinstance(got, (T, int)) else None
+                ok = gl is not None and len(gl) == len(want) and all(isinstance(x, (T, int)) and same_terms(x, y) for x, y in zip(gl, want)) and not R.hazards
+                if not ok:
+                    run.violate("J8", f"{modname}:{cls}.__call__:stored-value", m, m.tree,
+                                f"{cls}.__call__ on a field that stores a value returns it without replacing (at once) the base scalars by the coordinates of the point "
+                                f"({('raises ' + got.exc) if isinstance(got, Raised) else repr(gl)[:140]}): circulation_along_curve / flux_across_curve / flux_across_surface then integrate "
+                                f"the base scalars of VectorField([-C.y, C.x, 0], C) as constants (circulation 0 on the unit circle) while curl_operator / divergence_operator "
+                                f"differentiate them (2*pi over the disc), and results keep coordinate variables")
+                    break
+            else:
+                continue
+            break
+
+
 def check(run: Run) -> None:
     for rid, text in [
         ("J1", "circulation integrand = A . dr/dt over (t, a, b)"),
@@ -168,6 +237,8 @@ def check(run: Run) -> None:
         ("J5", "planar divergence integrand = (div F)(r(u, v)) |r_u x r_v|: the divergence taken at the points of the region"),
         ("J6", "volume integrand = div F * h1 h2 h3, integrated over z, y, x each with its own limits"),
         ("J7", "no assumption-forcing simplification (posify, force=True) on the way to an integrand"),
+        ("J8", "a field that stores a value (expression / component list in the base scalars) is, when applied to a trajectory, the same function of the point "
+               "the operators differentiate: the point's coordinates replace the base scalars, as for a callable-backed field"),
     ]:
         run.rule(rid, text)
     for mn in MODS[1:]:
@@ -338,4 +409,5 @@ def check(run: Run) -> None:
             run.violate("J6", f"{AN}:flux_across_volume_boundary:{kind}", mod, mod.tree,
                         f"the {kind.lower()} volume integral is not div F * h1 h2 h3 over each coordinate with its own limits "
                         f"({'raises ' + res.exc if isinstance(res, Raised) else [(repr(normalize(i)), [tuple(map(repr, l)) for l in ls]) for i, ls in R.integrals]})")
+    _stored_value_fields(run)
     run.sample({"integrals_examined": 9, "generic_field": "A = F(r(.)) as three indeterminates", "parametrisations": "undefined functions of t / (u, v)"})
